@@ -6,6 +6,7 @@
 _C19_AVOID = ",".join([
     "hint-leak-literal",   # literal typed by the enclosing hint: `v := 0 < x_i64`, `i8(1 + x_i64)` -> invalid WASM
     "pow-literal-base",    # `0.5 ^ x_f32`: base literal typed independently of the exponent -> invalid WASM
+    "infer-decl-literal",  # `s := 0.0` then `s = 0` turns s into i64 (inconsistent types -> invalid WASM)
     "cond-non-u8",         # `if x_i64 {` / `for x_f64 {` accepted -> invalid WASM
     "narrow-wrap",         # i8/i16/u8/u16 arithmetic is not wrapped to the width
     "cast-trunc",          # narrowing casts to i8/i16/u8/u16 do not truncate
@@ -48,6 +49,14 @@ CHECKS["C19"] = dict(
         "a result is read as the runtime reads it: the low bytes of the returned register at the width of the declared type",
         "a program the parser/analyzer/compiler rejects with an error value is a discard (rate reported), a panic is a violation",
         "compile or call time-outs (30 s / 20 s) are inconclusive (discard), never a violation",
+        "regions the documents leave undefined or ambiguous are not asserted (counters avoided-region:*, avoided-construct:*, constructed:* in the evidence): "
+        "integer / and % by zero (divisor is a non-zero literal, or guarded by `if d != 0` / `d != 0 and ...`); MIN / -1 and MIN % -1 for i32/i64; "
+        "% with a negative operand when truncated and floored remainders differ; float / by zero (spec lists division by zero as a runtime error, IEEE gives inf); "
+        "float % (not implemented, documented on integers only); integer ^ with a negative exponent (exponents are small literals or clamped); "
+        "float->integer cast of NaN; narrowing casts that also change signedness with an unrepresentable value (truncate and saturate rules conflict); "
+        "range loops with step 0, a loop variable that leaves its type's range, or bounds assigned in the body (bounds are small by construction); "
+        "stateful declarations inside if/for (documented at function top level only); statements after return; "
+        "literals that cannot be spelled: the minimum of a signed type (`-128` is rejected as unary minus of 128), integers above MaxInt64, negated unsigned literals, NaN/inf",
     ],
     tests=[
         dict(name="TestC19", env={"C19_AVOID_DEFAULT": _C19_AVOID},
